@@ -4,6 +4,7 @@
 //!   tracegen --prop <id> --seed <n> --runs <n> --out <file>     impl -> spec: record traces of the real crate
 //!   replay   --prop <id> --in <file> --out <file>               spec -> impl: replay behaviours printed by TLC
 
+mod digwl;
 mod driver;
 mod gen;
 mod model;
@@ -176,6 +177,8 @@ fn main() {
                 "lex" => replay::replay_lex_file(&get("in", "/dev/stdin")),
                 "parse" => replay::replay_parse_file(&get("in", "/dev/stdin")),
                 "verdict" => replay::replay_verdict_file(&get("in", "/dev/stdin")),
+                "dig" => digwl::replay_dig_file(&get("in", "/dev/stdin"), seed),
+                "sched" => replay::replay_sched_file(&get("in", "/dev/stdin")),
                 _ => replay::replay_file(&get("in", "/dev/stdin"), seed),
             };
             std::fs::write(get("out", "/dev/stdout"), serde_json::to_string(&summary).unwrap()).expect("write summary");
